@@ -100,7 +100,7 @@ CUSTOM = {
     "EXTDPAYEE": ["payeeid-without-name"],
     "EXTDPMT": ["neither-dsc-nor-inv"],
     "OFX": ["mixed-rq-rs"],
-    "SONRQ": ["userkey-and-userid", "no-credentials"],
+    "SONRQ": ["userkey-and-userid", "userkey-and-userid-only", "userid-without-userpass", "no-credentials"],
     "TAX1099MISC_V100": ["sttaxwh-without-payerstate", "sttaxwh-and-addlsttaxwhagg"],
     "TAX1099INT_V100": ["forcnt-and-forincome"],
     "TAX1099DIV_V100": ["forcnt-and-forincome"],
@@ -133,6 +133,11 @@ def make_custom(cls, which):
         d["kw"]["bankmsgsrsv1"] = M.minimal(U["BANKMSGSRSV1"])
     elif which == "userkey-and-userid":
         d["kw"]["userkey"] = ["str", "k"]
+    elif which == "userkey-and-userid-only":
+        d["kw"]["userkey"] = ["str", "k"]
+        d["kw"].pop("userpass", None)
+    elif which == "userid-without-userpass":
+        d["kw"].pop("userpass", None)
     elif which == "no-credentials":
         d["kw"].pop("userid", None)
         d["kw"].pop("userpass", None)
@@ -268,6 +273,13 @@ def _to_tree_raw(desc):
     return D.to_etree(d)
 
 
+def _safe_repr(x):
+    try:
+        return repr(x)[:300]
+    except Exception as e:  # e.g. OFX.__repr__ needs a sign-on
+        return f"<{type(x).__name__} (repr failed: {type(e).__name__})>"
+
+
 def _key(ob):
     k = ob["kind"]
     cls = ob["cls"]
@@ -325,7 +337,7 @@ def check_case(case):
                     out.append((f"boundary-value-rejected/{key}", f"{ob} via {route}: {e!r}"))
                 continue
             if expect == "reject":
-                out.append((f"violation-accepted/{key}/{route.split('-')[0]}", f"{ob} via {route}: built {inst!r}"))
+                out.append((f"violation-accepted/{key}/{route.split('-')[0]}", f"{ob} via {route}: built {_safe_repr(inst)}"))
             else:
                 vs = V.violations(inst)
                 if vs:
